@@ -780,6 +780,10 @@ def run(ctx):
                     describe=lambda c, e, g: 'character U+%04X (%s, keyword letter %s): model [ws, ci, dot] = %r, implementation %r' % (c['c'], c['lang'], c['k'], e, g))
         ctx.count(len(cs))
     ctx.exhaustive = False
+    # the two sides of an ON condition: resolve_join_variables of both ports against JoinVars.v (the swap theorem's model)
+    importlib.import_module('props.joinvars').run(ctx, THEOREM + ' ; C08_join_sides_swap (JoinVars.v)')
+    # variable level: aN vs a[N], token boundaries, digits, record-number names (VarSpelling.v, entries 535-537)
+    importlib.import_module('props.varspell').run(ctx)
 
 
 def shrink_internal(c, e, g):
@@ -814,13 +818,13 @@ def eval_internal(c, code):
     g = (lib.run_impl_py('c08', [c], shards=1) if c['lang'] == 'py' else lib.run_impl_js('c08', [c], shards=1))[0]
     g = canon_impl_internal(g, c['lang'])
     return c, expected_internal(m, g, c['lang'], c), g
-    # the two sides of an ON condition: resolve_join_variables of both ports against JoinVars.v (the swap theorem's model)
-    importlib.import_module('props.joinvars').run(ctx, THEOREM + ' ; C08_join_sides_swap (JoinVars.v)')
 
 
 def replay(ctx, case):
     if case.get('part') == 'joinvars':
         return importlib.import_module('props.joinvars').replay(ctx, case, THEOREM)
+    if case.get('part') == 'varspell':
+        return importlib.import_module('props.varspell').replay(ctx, case)
     lang = case.get('lang', 'py')
     code = 0 if lang == 'py' else 1
     kind = case.get('kind')
